@@ -48,13 +48,21 @@ Record sframe := mkS { s_sig : Z; s_ph : phase }.
    Objects are numbered: 0 = the application object whose main() runs, 1, 2, ... = other Application objects that the
    main flow constructs / destroys meanwhile (they never call main(), so they never register), or a copy of *this that is
    made and dropped at once (Application is copyable: implicit copy constructor; the copy does not register either). *)
-Inductive oop := OCore | ONew | ODel | OCopy | OSetAlarm | OKillAlarm.   (* shape of the main flow: next core op / construct / destroy / copy-and-drop / setAlarm(n>0) / setAlarm(0) *)
-Inductive fop := FCore (o : op) | FNew | FDel | FCopy | FSetAlarm | FKillAlarm.
+Inductive oop := OCore | ONew | ODel | OCopy | OSetAlarm | OKillAlarm | OReport.   (* shape of the main flow: next core op / construct / destroy / copy-and-drop / setAlarm(n>0) / setAlarm(0) / error report *)
+(* FReport = the error report of shutdown(true):   void Application::shutdown(bool hasError) {
+                                                      fetch_and_inc(blocked_);                  (FCore Block - "ignore signals/alarms during shutdown")
+                                                      killAlarm();
+                                                      if (hasError) { onUnhandledException(); }  (FReport: an override that RETURNS; the default one exits)
+                                                      shutdown(); }
+   main() calls shutdown(true) from its catch(...) when setup() / run() / shutdown(false) threw.  The report is application code that
+   runs for a while: a step of the main flow that changes nothing of the signal state, in front of which (and during which) signals
+   may arrive - blocked_ has ALREADY been incremented, and nothing decrements it afterwards (the run is over). *)
+Inductive fop := FCore (o : op) | FNew | FDel | FCopy | FSetAlarm | FKillAlarm | FReport.
 Definition core_of (f : list fop) : list op :=
   flat_map (fun x => match x with FCore o => [o] | _ => [] end) f.
 Definition shape_of (f : list fop) : list oop :=
   map (fun x => match x with FCore _ => OCore | FNew => ONew | FDel => ODel | FCopy => OCopy
-                      | FSetAlarm => OSetAlarm | FKillAlarm => OKillAlarm end) f.
+                      | FSetAlarm => OSetAlarm | FKillAlarm => OKillAlarm | FReport => OReport end) f.
 
 Record rst := mkR {
   inst  : option nat;    (* instance_s *)
@@ -108,6 +116,7 @@ Definition objstep (r : rst) : option rst :=
   | OCopy :: f => Some (mkR (reset_inst (nxt r) (inst r)) (live r) (S (nxt r)) f (fault r) (alarm_set r) (rearm r))   (* { App copy( *this); } *)
   | OSetAlarm :: f => Some (mkR (inst r) (live r) (nxt r) f (fault r) true (rearm r))       (* setAlarm(n), n > 0 *)
   | OKillAlarm :: f => Some (mkR (inst r) (live r) (nxt r) f (fault r) (alarm_set r) (rearm r))   (* setAlarm(0): alarm(0) only *)
+  | OReport :: f => Some (mkR (inst r) (live r) (nxt r) f (fault r) (alarm_set r) (rearm r))      (* onUnhandledException() returns *)
   | _ => None
   end.
 (* ... and what it does to the dispositions: setAlarm(n > 0) installs the handler for SIGALRM whatever it finds *)
@@ -164,12 +173,13 @@ Definition ostep (d : Z) (s : ost) : ost :=
     end
   else s.                  (* not a signal of this application *)
 
-(* scheduling-point code: 11 / 12 / 13 = the main flow is about to construct / destroy another object / copy-and-drop *this *)
+(* scheduling-point code: 11 / 12 / 13 = the main flow is about to construct / destroy another object / copy-and-drop *this;
+   14 / 15 = setAlarm(n > 0) / setAlarm(0); 16 = the error report of shutdown(true) is running (its step = it returns) *)
 Definition ocode (s : ost) : Z :=
   match hs s with
   | [] => if at_op (core s) then
             match oflow (reg s) with ONew :: _ => 11 | ODel :: _ => 12 | OCopy :: _ => 13
-                                   | OSetAlarm :: _ => 14 | OKillAlarm :: _ => 15 | _ => code (core s) end
+                                   | OSetAlarm :: _ => 14 | OKillAlarm :: _ => 15 | OReport :: _ => 16 | _ => code (core s) end
           else code (core s)
   | _ => code (core s)
   end.
@@ -229,7 +239,9 @@ Fixpoint orun (fuel : nat) (ds : list Z) (s : ost) : list Z * ost :=
               bit 4 (16) = main() is given a time limit (it calls setAlarm itself).
         ans: 0 stop, 2 = the callback re-arms the alarm (setAlarm(n > 0)) and continues, 3 = re-arms and stops, else continue.
         op: 1..4 as in Model.v; 5 = construct another application object, 6 = destroy the most recent other object,
-            7 = copy *this and drop the copy, 8 = setAlarm(n > 0), 9 = setAlarm(0).  After the last run object 0 is destroyed: record 42 = getInstance().   ---- *)
+            7 = copy *this and drop the copy, 8 = setAlarm(n > 0), 9 = setAlarm(0), 10 = run() throws: main() catches and calls
+            shutdown(true) with an onUnhandledException() override that returns (scheduling-point code 16 = inside the error report;
+            the rest of the flow is never executed).  After the last run object 0 is destroyed: record 42 = getInstance().   ---- *)
 Definition pre_of (mask : Z) : Z -> bool := fun x => is_sig x && Z.testbit mask (x - 1).
 
 Fixpoint decode_fops (l : list Z) : list fop :=
@@ -243,6 +255,7 @@ Fixpoint decode_fops (l : list Z) : list fop :=
               else if x =? 7 then FCopy :: decode_fops r
               else if x =? 8 then FSetAlarm :: decode_fops r
               else if x =? 9 then FKillAlarm :: decode_fops r
+              else if x =? 10 then [FCore Block; FReport]      (* the run ends with an exception: shutdown(true); nothing of the flow follows *)
               else decode_fops r
   end.
 
